@@ -16,6 +16,8 @@ pub use toplevel::check_file_with_env_and_results;
 pub use toplevel::{check_file, check_file_with_env};
 #[cfg(goml_verif)]
 pub use toplevel::{VerifFnObserver, verif_set_fn_observer, verif_ty_from_hir};
+#[cfg(goml_verif)]
+pub use toplevel::verif_impl_generics;
 
 pub struct Typer {
     pub uni: InPlaceUnificationTable<TypeVar>,
